@@ -30,4 +30,4 @@ def replay(ctx, verdict):
     return muxlib.replay_scenario(ctx, verdict, 'C03', ORACLE)
 
 
-MANIFEST = {'technique': 'Coq theorems over all label sequences of the session-pair model (closing frame numbered last, reader gets a prefix, closed-stream read/write semantics; exactness of close over all healthy label sequences) + lock-step differential execution with closes overtaking/trailing data across connections and with failing sends', 'level_text': "Proved in Coq for every label sequence: C03_close_numbered_after_data (the closing notice takes the sequence number after every data frame and carries no data, so the re-sequencer - C02_close_in_order - applies it only after all data), C03_reader_gets_prefix, C03_writes_fail_after_close, C03_closed_stream_serves_buffered_then_error (a closed stream never blocks a reader: buffered bytes, then the broken-stream error). Proved for every healthy label sequence (no connection failure, no session close; closing notice overtaking or trailing data on any connections): C03_close_is_exact - if the reader's end is closed and the reader did not close it itself, the writer did close the stream and read ++ pipe = EXACTLY the bytes written (never an early end, never a lost tail). Decided on every run by the lock-step correspondence + oracle over seeded scenarios: closes by either/both sides, zero bytes before close, reads blocked across the close, the closing notice failing to be sent on a broken connection (blocked reads must return).", 'level_note': 'Granularity: one harness label runs to quiescence; goroutine interleavings inside a label are covered by schedule-point replays, the race detector and (C13) the concurrent stress driver, not by the theorems. Hypotheses of the theorems: stream ids returned by OpenStream are fresh at the opener (fresh_run; in Cloak only the client opens streams), fewer than 2^64-2 frames per stream direction. Frames are abstract (decoded) in this model: codec = C04, record framing = C05. Trusted: Coq kernel, extraction (ExtrOcamlBasic), testing/synctest barrier, in-memory FIFO connections.', 'design_ref': 'DESIGN.md section 6, C03'}
+MANIFEST = {'technique': 'Coq theorems over all label sequences of the session-pair model (closing frame numbered last, reader gets a prefix, closed-stream read/write semantics; exactness of close over all healthy label sequences) + lock-step differential execution with closes overtaking/trailing data across connections and with failing sends', 'level_text': "Proved in Coq for every label sequence: C03_close_numbered_after_data (the closing notice takes the sequence number after every data frame and carries no data, so the re-sequencer - C02_close_in_order - applies it only after all data), C03_reader_gets_prefix, C03_writes_fail_after_close, C03_closed_stream_serves_buffered_then_error (a closed stream never blocks a reader: buffered bytes, then the broken-stream error). Proved for every healthy label sequence (no connection failure, no session close; closing notice overtaking or trailing data on any connections): C03_close_is_delivered (once the writer has closed and no frame of the direction is in flight, the reader's end IS closed and holds exactly the bytes written) and C03_close_is_exact - if the reader's end is closed and the reader did not close it itself, the writer did close the stream and read ++ pipe = EXACTLY the bytes written (never an early end, never a lost tail). Decided on every run by the lock-step correspondence + oracle over seeded scenarios: closes by either/both sides, zero bytes before close, reads blocked across the close, the closing notice failing to be sent on a broken connection (blocked reads must return).", 'level_note': 'Granularity: one harness label runs to quiescence; goroutine interleavings inside a label are covered by schedule-point replays, the race detector and (C13) the concurrent stress driver, not by the theorems. Hypotheses of the theorems: stream ids returned by OpenStream are fresh at the opener (fresh_run; in Cloak only the client opens streams), fewer than 2^64-2 frames per stream direction. Frames are abstract (decoded) in this model: codec = C04, record framing = C05. Trusted: Coq kernel, extraction (ExtrOcamlBasic), testing/synctest barrier, in-memory FIFO connections.', 'design_ref': 'DESIGN.md section 6, C03'}
